@@ -130,6 +130,17 @@ def b_at_entry(ex: Exec, node: ast.Call) -> SV:
     return ex.in_old(snap, lambda: ex.eval(node.args[0]))
 
 
+def b_at_call(ex: Exec, node: ast.Call) -> SV:
+    """at_call("Class.method", expr): expr evaluated in the heap as it was right after
+    the (last) call of that method in the body.  Ghost sums are anchored there so that
+    the same term denotes them before and after unrelated writes."""
+    name = node.args[0].value  # type: ignore[attr-defined]
+    snap = ex.call_snaps.get(name)
+    if snap is None:
+        raise Unsupported(f"at_call: no call of {name} on this path")
+    return ex.in_old(snap, lambda: ex.eval(node.args[1]))
+
+
 def b_implies(ex: Exec, node: ast.Call) -> SV:
     a = ex.truth(ex.eval(node.args[0]))
     b = ex.truth(ex.eval(node.args[1]))
@@ -316,6 +327,47 @@ def b_distinct(ex: Exec, node: ast.Call) -> SV:
     return sv_bool(z3.Distinct(*[v.t for v in vs]))
 
 
+def b_dict_wf(ex: Exec, node: ast.Call) -> SV:
+    """Representation invariant of a dict as a formula: membership in the domain
+    coincides with occurrence in the key order, and keys are pairwise distinct."""
+    d = ex.eval(node.args[0])
+    s0, dom = ex.seq(d), ex.ddom(d)
+    k = z3.Const("k!wf", S.Val)
+    i, j = z3.Int("i!wf"), z3.Int("j!wf")
+    ki = S.key_index(s0, k)
+    return sv_bool(
+        z3.And(
+            z3.ForAll([k], z3.Select(dom, k) == z3.Contains(s0, z3.Unit(k))),
+            z3.ForAll([i, j], z3.Implies(z3.And(0 <= i, i < j, j < z3.Length(s0)), s0[i] != s0[j])),
+            # every key has a position (definition of key_index on a duplicate-free key order)
+            z3.ForAll([k], z3.Implies(z3.Select(dom, k), z3.And(0 <= ki, ki < z3.Length(s0), s0[ki] == k))),
+        )
+    )
+
+
+def b_all_in(ex: Exec, node: ast.Call) -> SV:
+    """all_in(xs, d): every element of sequence xs is a key of dict / member of set d.
+    First-order predicate with its definition supplied as an instance (so that it is
+    carried through calls by congruence instead of by a nested quantifier)."""
+    xs = ex.eval(node.args[0])
+    d = ex.eval(node.args[1])
+    st = xs.t if xs.ty.kind == "raw" else ex.seq(xs)
+    dom = d.t if d.ty.kind == "raw" else ex.ddom(d)
+    p = S.all_in(st, dom)
+    if getattr(ex, "bound_depth", 0) == 0:
+        j = z3.Int("j!ai")
+        ex.assume(p == z3.ForAll([j], z3.Implies(z3.And(0 <= j, j < z3.Length(st)), z3.Select(dom, st[j]))))
+    return sv_bool(p)
+
+
+def b_before(ex: Exec, node: ast.Call) -> SV:
+    """before(d, c, i): c is one of the first i keys of dict d (in iteration order)."""
+    d = ex.eval(node.args[0])
+    c = ex.eval(node.args[1])
+    i = ex.eval(node.args[2])
+    return sv_bool(z3.And(z3.Select(ex.ddom(d), c.t), S.key_index(ex.seq(d), c.t) < S.un_int(i.t)))
+
+
 def b_fold_prefix(ex: Exec, node: ast.Call) -> SV:
     """fold_prefix(lambda acc, x: step, init, S, n): the value of folding `step`
     over the first n elements of sequence S.  The engine supplies the unfolding
@@ -340,20 +392,16 @@ def b_fold_prefix(ex: Exec, node: ast.Call) -> SV:
     finally:
         ex.locals = saved
         ex.bound_depth -= 1
-    g = z3.Lambda([acc, x], step)
+    from . import lift
+
     nt = S.un_int(n.t)
-
-    def F(k):
-        return z3.SeqFoldLeft(g, ex.num(init), z3.Extract(st, 0, k))
-
-    term = F(nt)
-    # unfolding instance at n (valid for 1 <= n <= len S)
-    inst = z3.Implies(
-        z3.And(nt >= 1, nt <= z3.Length(st)),
-        term == _apply2(g, F(nt - 1), st[nt - 1]),
+    term, insts = lift.fold_term(ex, acc, x, step, ex.num(init), st, nt)
+    if getattr(ex, "bound_depth", 0) == 0:
+        for i in insts:
+            ex.assume(i)
+    ex.note_assumption(
+        "fold_prefix: F(0) = init and F(n) = step(F(n-1), S[n-1]) for 1 <= n <= len(S) (definition of fold, instantiated at the indices met)"
     )
-    ex.assume(inst)
-    ex.note_assumption("fold_prefix: unfolding F(n) = step(F(n-1), S[n-1]) for 1 <= n <= len(S) (definition of fold)")
     return SV(S.mk_real(term), T.REAL)
 
 
@@ -364,6 +412,7 @@ def _apply2(g, a, b):
 _TABLE = {
     "old": b_old,
     "at_entry": b_at_entry,
+    "at_call": b_at_call,
     "implies": b_implies,
     "iff": b_iff,
     "forall": b_forall,
@@ -389,6 +438,9 @@ _TABLE = {
     "concat": b_concat,
     "distinct_keys": b_distinct_keys,
     "fold_prefix": b_fold_prefix,
+    "dict_wf": b_dict_wf,
+    "before": b_before,
+    "all_in": b_all_in,
     "distinct": b_distinct,
     "seq_remove": b_seq_remove,
 }
